@@ -383,6 +383,44 @@ func genC20(tier, out string, sum *Summary) {
 			}
 			return true, toJSON(x) == toJSON(y)
 		})
+		// binary floats against number text: equal exactly when the values are (no detour through the other's format)
+		exact := func(v any) *big.Rat {
+			switch x := v.(type) {
+			case float64:
+				r := new(big.Rat)
+				if r.SetFloat64(x) != nil {
+					return r
+				}
+			case float32:
+				r := new(big.Rat)
+				if r.SetFloat64(float64(x)) != nil {
+					return r
+				}
+			case json.Number:
+				if r, ok := new(big.Rat).SetString(string(x)); ok {
+					return r
+				}
+			}
+			return nil
+		}
+		laws("float-and-text", []any{float64(9007199254740992), json.Number("9007199254740993"), json.Number("9007199254740992"), float64(0.5), json.Number("0.5"), json.Number("0.50000000000000001"), float32(0.25), json.Number("0.25"), float64(3), json.Number("3.0")}, func(x, y any) (bool, bool) {
+			rx, ry := exact(x), exact(y)
+			if rx == nil || ry == nil {
+				return false, false
+			}
+			return rx.Cmp(ry) == 0, true
+		})
+		// a string never equals a number, however the number came about and whatever the string says
+		for _, pr := range [][2]string{{"'3'", "`1` + `2`"}, {"'3'", "sum(`[1, 2]`)"}, {"'3'", "to_number('3')"}, {"'3'", "abs(`-3`)"}, {"'3'", "length('abc')"}, {"'3'", "`3`"}, {"'0.5'", "`1` / `2`"}, {"'1.5'", "avg(`[1, 2]`)"}, {"'-1'", "- `1`"}, {"'3'", "max(`[1, 3]`)"}, {"'2'", "ceil(`1.5`)"}, {"'1E+2'", "`10` * `10`"}, {"'100'", "`10` * `10`"}, {"'1e2'", "`1e2` + `0`"}, {"s", "one + two"}, {"s", "to_number(s)"}, {"h", "one / two"}} {
+			d := map[string]any{"s": "3", "h": "0.5", "one": json.Number("1"), "two": json.Number("2"), "list": []any{"3", "0.5"}}
+			for _, e := range []string{pr[0] + " == " + pr[1], pr[1] + " == " + pr[0], "[" + pr[0] + "] == [" + pr[1] + "]", "contains([" + pr[0] + "], " + pr[1] + ")", "contains(list, " + pr[1] + ")", "{k: " + pr[1] + "} == {k: " + pr[0] + "}", "let $n = " + pr[1] + " in list[?@ == $n] | length(@) > `0`", "!(" + pr[0] + " != " + pr[1] + ")"} {
+				o := search(e, d)
+				sum.count("string-vs-number")
+				if !(o.Kind == "val" && o.Value == false) {
+					sum.direct("equality", e, d, "a string and a number are of different JSON types: expected false, got "+describe(o))
+				}
+			}
+		}
 		all := []any{json.Number("1"), json.Number("2"), json.Number("3")}
 		nested := []any{all, all[:2], "s"}
 		laws("shared-memory", []any{all, all[:2], all[:1], all[:0], []any{json.Number("1"), json.Number("2")}, all[1:], nested, nested[:2], []any{all[:2], all[:2]}, []any{all, all[:2]}}, func(x, y any) (bool, bool) { return sameValue(x, y, false), true })
@@ -631,6 +669,7 @@ func genC18(tier, out string, sum *Summary) {
 			sum.direct("closure", e, doc, "serialising and decoding the result changes it: "+string(b))
 		}
 	}
+	opaqueFamily(sum, "closure")
 	// strings that are nearly numbers, converted: the result is a JSON number or null, never anything else
 	for _, x := range numberish(tier) {
 		for _, e := range []string{"to_number(@)", "[to_number(@), type(to_number(@))]", "{n: to_number(@)}", "to_number(@) | [@, @ == @]", "map(&to_number(@), [@, @])", "to_number(@) || 'none'"} {
@@ -763,6 +802,9 @@ func genC15(tier, out string, sum *Summary) {
 		un := hasEnum(sc.e)
 		first := search(text, sc.doc)
 		sum.count("small-scope/" + first.Kind)
+		if i%4 == 0 && !(first.Kind == "err" && unorderedFaults(sc.e)) {
+			c.emit(sc.e, sc.doc, first, un) // the one outcome every evaluation must give is the specified one
+		}
 		for rep := 0; rep < 3; rep++ {
 			o := search(text, rebuild(sc.doc))
 			if sameObs(first, o, un) || (first.Kind == "err" && o.Kind == "err" && unorderedFaults(sc.e)) {
@@ -835,6 +877,35 @@ func genC15(tier, out string, sum *Summary) {
 			if !sameObs(first, o, false) {
 				sum.direct("determinism", e, hdoc, fmt.Sprintf("first evaluation gives %s, a later one gives %s", describe(first), describe(o)))
 				break
+			}
+		}
+	}
+	// values that are not JSON data answer like any opaque value, every time (a map with keys of several Go types
+	// has no order and no spelling of its keys to depend on)
+	opaqueFamily(sum, "determinism")
+	{
+		collide := map[any]any{1: "uno", "1": "one", true: "yes", "true": "ja", 8080: "int", "8080": "text"}
+		for _, e := range []string{"\"1\"", "\"true\"", "\"8080\"", "ports[0].\"8080\"", "\"1\" == 'one'", "keys(@)", "values(@)", "*", "length(@)", "type(@)", "to_array(@)[0] == @"} {
+			var doc any = collide
+			if strings.HasPrefix(e, "ports") {
+				doc = map[string]any{"ports": []any{collide}}
+			}
+			first := search(e, doc)
+			for rep := 0; rep < 100; rep++ {
+				d2 := map[any]any{}
+				for k, v := range collide {
+					d2[k] = v
+				}
+				var dd any = d2
+				if strings.HasPrefix(e, "ports") {
+					dd = map[string]any{"ports": []any{d2}}
+				}
+				o := search(e, dd)
+				sum.count("keys-of-several-types")
+				if !sameObs(first, o, true) && !(first.Kind == "val" && o.Kind == "val" && !modelled(first.Value) && !modelled(o.Value)) {
+					sum.direct("determinism", e, "map[any]any{1: \"uno\", \"1\": \"one\", true: \"yes\", \"true\": \"ja\", 8080: \"int\", \"8080\": \"text\"}", fmt.Sprintf("one evaluation gives %s, another on an equal map gives %s", describe(first), describe(o)))
+					break
+				}
 			}
 		}
 	}
